@@ -19,7 +19,7 @@ def run(ctx):
 
 
 META = {
-    "text": "TLC checks Delivery.tla (emit -> all frames appended in one critical section -> single sender draining batches -> FIFO wire -> reassembly -> one dispatch goroutine per packet -> handler entry) for all interleavings of 2 emitters x 2 packets with attachments: contiguous frames, wire and finish order, exactly-once entry; the deviations of appending frame by frame, reversing a batch and dispatch reordering must violate. Real scenarios (each transport incl. after an upgrade x state recovery off/on x 1-3 clients, goroutines emitting six argument shapes with 0-4 attachments and payload sizes through 32 KiB / 64 KiB up to 300 kB in both directions, decoy handlers under look-alike names) are validated by DeliveryTrace.tla from hooks under the queue mutex, the sender, the peer's Engine.IO receive path and handler-entry records carrying the argument comparison.",
+    "text": "TLC checks Delivery.tla (emit -> all frames appended in one critical section -> single sender draining batches -> FIFO wire -> reassembly -> one dispatch goroutine per packet -> handler entry) for all interleavings of 2 emitters x 2 packets with attachments: contiguous frames, wire and finish order, exactly-once entry; the deviations of appending frame by frame, reversing a batch and dispatch reordering must violate. Real scenarios (each transport incl. after an upgrade x state recovery off/on x 1-3 clients, goroutines emitting six argument shapes with 0-4 attachments and payload sizes through 32 KiB / 64 KiB up to 300 kB in both directions, decoy handlers under look-alike names) are validated by DeliveryTrace.tla from hooks under the queue mutex, the sender, the peer's Engine.IO receive path and handler-entry records carrying the argument comparison. One scenario runs on polling against a server with MaxBufferSize 300 and four 100-byte attachments per packet, so that one write batch is split into three payloads.",
     "note": "Trusted: hooks under packetQueue.mu; the handler's own deep comparison; tag extraction from frames.",
     "technique": "TLA+/TLC model checking + trace validation of real tagged traffic",
     "design_ref": "DESIGN.md 4.10, 5 (C01)",
